@@ -1,0 +1,20 @@
+//go:build verif
+
+package storage
+
+import "github.com/syndtr/goleveldb/leveldb/util"
+
+// Test seams for the /verif machinery (property C09), LevelDB backend.
+
+// VerifCompactAll runs a full-range compaction and waits for it, so that a
+// harness can bring the database into a state that does not depend on the
+// timing of goleveldb's background compaction. It does not change the content.
+func (s *LevelDBStore) VerifCompactAll() error {
+	return s.db.CompactRange(util.Range{})
+}
+
+// VerifProperty returns a goleveldb property (e.g. "leveldb.num-files-at-level0"),
+// read-only.
+func (s *LevelDBStore) VerifProperty(name string) (string, error) {
+	return s.db.GetProperty(name)
+}
